@@ -30,6 +30,7 @@ func c14Scenarios() []srvScenarioDef {
 		{Name: "C14c archive || rotation", Init: append(append([]string{}, stdInit...), "rep:1:kA:100:500"), Threads: [][]string{{"archive"}, {"rot"}}, FSPoints: true, PageTear: true, StateOnly: true},
 		{Name: "C14e archive || the same registration submitted again", Init: append(append([]string{}, stdInit...), "rep:1:kA:100:500"), Threads: [][]string{{"archive"}, {"reg:G1:temp"}}, FSPoints: true, PageTear: true, StateOnly: true},
 		{Name: "C14f archive || report burst of two devices", Init: stdInit, Threads: [][]string{{"archive"}, {"rep:1:kA:100:500", "rep:2:kB:100:700", "rep:1:kA:101:500"}}, FSPoints: true, PageTear: true, StateOnly: true},
+		{Name: "C14g five concurrent archive requests against the rate limit", Init: append(append([]string{}, stdInit...), "rep:1:kA:100:500"), Threads: [][]string{{"archive"}, {"archive"}, {"archive"}, {"archive"}, {"archive"}}},
 		{Name: "C14d archive || conflicting authorization of a device with reports", Init: append(append([]string{}, stdInit...), "rep:1:kA:100:500"), Threads: [][]string{{"archive"}, {"auth:1:kX:1000:G1"}}, FSPoints: true, PageTear: true, StateOnly: true},
 	}
 }
@@ -186,7 +187,7 @@ func init() {
 		execs += hst.Transitions
 		// rate limit in front of the handler, virtual time
 		rl := c14RateLimit(run)
-		finishScenarios(run, execs, len(defs), bound, "; file-system calls (open, read, write, create) are scheduling points, so the write burst lands in every gap between two file reads of the archive handler and inside the truncate/write gap of a key file; every zip produced is checked: each public file a record-aligned prefix of the final file, every report has a verifying authorization in the same archive, every authorization verifies under the archived GCA key, every week under the archived server key, server.pubkey is exactly the public half, the private key occurs nowhere; plus BFS over histories of valid, conflicting, forged (altered after signing, flipped bit, foreign GCA, temp key) authorizations, reports under right and wrong keys, rotations, restarts and repeated registrations, with an archive taken at rest in every distinct state (same oracle, and each archived file must be the complete file)")
+		finishScenarios(run, execs, len(defs), bound, "; file-system calls (open, read, write, create) are scheduling points, so the write burst lands in every gap between two file reads of the archive handler and inside the truncate/write gap of a key file; every zip produced is checked: each public file a record-aligned prefix of the final file, every report has a verifying authorization in the same archive, every authorization verifies under the archived GCA key, every week under the archived server key, server.pubkey is exactly the public half, the private key occurs nowhere; five concurrent requests are answered like five sequential ones (no more 200s than the limit, whatever the interleaving of the limiter's and the server's mutex); plus BFS over histories of valid, conflicting, forged (altered after signing, flipped bit, foreign GCA, temp key) authorizations, reports under right and wrong keys, rotations, restarts and repeated registrations, with an archive taken at rest in every distinct state (same oracle, and each archived file must be the complete file)")
 		run.Coverage["rate_limit_requests"] = rl
 		rc := run.Finish()
 		if !ok && rc == 0 {
